@@ -377,7 +377,28 @@ def strategy(profile, quick):
         base = e2e.case_strategy("lutmix8", max_ops=8, big=False, dtypes=("int8", "int8", "uint8"))
     else:
         base = e2e.case_strategy("exact", max_ops=6, big=not quick, dtypes=("int8", "int8", "uint8"))
-    return st.builds(lambda c, s: dict(c, kind="c01", input_seed=s), base, st.integers(0, 1 << 30))
+    def finish(c, s, k, to64):
+        c = dict(c, kind="c01", input_seed=s)
+        if profile in ("exact", "elementwise", "convs", "slices", "head") and k == 0:
+            _argmax_tail(c["spec"], to64)
+        return c
+
+    return st.builds(finish, base, st.integers(0, 1 << 30), st.integers(0, 9), st.booleans())
+
+
+def _argmax_tail(spec, to64):
+    """ARG_MAX over the channels of the first model output (index of the first maximum) as a further output: its lowering - a depthwise convolution packing value and reversed
+    index into 16 bits, a max pool across the channels, the extraction of the index - is executed by the simulator and compared exactly; int64 results stay on the CPU"""
+    import copy
+
+    t = spec["tensors"][spec["outputs"][0]]
+    if t["dtype"] not in ("int8", "uint8") or len(t["shape"]) < 2 or t.get("data") is not None:
+        return
+    spec["tensors"] = copy.deepcopy(spec["tensors"]) + [dict(name="argmax_axis", shape=[], dtype="int32", scale=None, zp=None, data=dict(values=[len(t["shape"]) - 1]), qdim=0),
+                                                      dict(name="argmax_out", shape=list(t["shape"][:-1]), dtype="int64" if to64 else "int32", scale=None, zp=None, data=None, qdim=0)]
+    n = len(spec["tensors"])
+    spec["ops"] = list(spec["ops"]) + [dict(code="ARG_MAX", inputs=[spec["outputs"][0], n - 2], outputs=[n - 1], opts=dict(table="ArgMaxOptions", fields=dict(OutputType=4 if to64 else 2)), version=2)]
+    spec["outputs"] = list(spec["outputs"]) + [n - 1]
 
 
 def part(ctx, arg, rec):
